@@ -214,20 +214,19 @@ well-formed document `d` saved plainly with a classic cross-reference table (fil
 on the saved bytes succeeds and returns the same version, binary mark and trailer (as `save`
 left it, `Size` included), `xref_start` = the offset the writer stored, `max_id ≤` the old one,
 and for EVERY object id exactly the object the document held (and nothing for other ids). -/
-theorem load_of_save_table (order : Option (List Nat)) (d : SDoc) (out : Bytes) (d' : SDoc)
+theorem load_of_save_table_with (arr : List Block → List Block) (harr : arr [] = []) (d : SDoc) (out : Bytes) (d' : SDoc)
     (hk : d.xrefKind = .table) (h : saveFrom [] d = some (out, d')) (hlen : out.length < 4294967296)
     (hmax : d.maxId + 1 ≤ 4294967295) (hwf : DocWF d)
     (hD : DictReadsBack d'.trailer (STARTXREF_KW ++ natDigits (bodyOf [] d).length ++ EOF_KW))
     (hobj : ∀ p ∈ d.objects, IndirectReadsBack p.1.1 p.1.2 p.2)
     (hv1 : ∀ b ∈ d.version, notEol b = true) (hv2 : validUtf8 d.version = true)
     (hprev : d.trailer.get PREV = none) (henc : d.trailer.has ENCRYPT = false) :
-    ∃ L : Loaded, loadDocOrd order out = .ok L ∧ L.version = d.version ∧ L.binaryMark = d.binaryMark ∧
+    ∃ L : Loaded, loadDocWith arr out = .ok L ∧ L.version = d.version ∧ L.binaryMark = d.binaryMark ∧
       L.trailer = d'.trailer ∧ L.xrefStart = (bodyOf [] d).length ∧ L.maxId ≤ d.maxId ∧
       ∀ id, L.objects.get id = d.objects.get id := by
-  cases order
-  all_goals (
+  (
     obtain ⟨table, hget, _, hnodup, hload⟩ :=
-      load_front_of_save_table _ d out d' hk h hlen hmax hwf.gens hD hv1 hv2 hprev henc
+      load_front_of_save_table arr d out d' hk h hlen hmax hwf.gens hD hv1 hv2 hprev henc
     have hb := body_le_out [] d out d' h
     -- where the objects stand
     have hrec0 : Recorded (bodyOf [] d) (xmapOf [] d) d.objects :=
@@ -257,7 +256,7 @@ theorem load_of_save_table (order : Option (List Nat)) (d : SDoc) (out : Bytes) 
     have hgood : ∀ e ∈ table.sorted, EntryGood out table table.sorted.length d.objects e := by
       intro e he
       obtain ⟨k, v⟩ := e
-      rw [mem_sorted] at he
+      rw [mem_sorted table hnodup] at he
       obtain ⟨off, g, hv, hx⟩ := hentry k v he
       obtain ⟨hoff, o, hog, hkept, hat⟩ := hrec k off g hx
       obtain ⟨rest, hrest⟩ := hat
@@ -275,7 +274,7 @@ theorem load_of_save_table (order : Option (List Nat)) (d : SDoc) (out : Bytes) 
       · simp at h1
     rw [hload]
     unfold objectPass
-    simp only [hfold, permuteBlocks_nil, mergeBlocks_nil]
+    simp only [hfold, harr, mergeBlocksX_nil]
     refine ⟨_, rfl, rfl, rfl, rfl, rfl, by simp only; omega, ?_⟩
     intro id
     simp only
@@ -292,7 +291,7 @@ theorem load_of_save_table (order : Option (List Nat)) (d : SDoc) (out : Bytes) 
       rw [List.any_eq_true] at hany
       obtain ⟨e, he, hid⟩ := hany
       obtain ⟨k, v⟩ := e
-      rw [mem_sorted] at he
+      rw [mem_sorted table hnodup] at he
       obtain ⟨off, g, hv, hx⟩ := hentry k v he
       subst hv
       simp only [entryIs, Bool.and_eq_true, beq_iff_eq] at hid
@@ -321,7 +320,26 @@ theorem load_of_save_table (order : Option (List Nat)) (d : SDoc) (out : Bytes) 
           rw [hx']; rfl
         rw [List.any_eq_true]
         refine ⟨(id.1, .normal off id.2), ?_, by simp [entryIs]⟩
-        rw [mem_sorted]
+        rw [mem_sorted table hnodup]
         exact XTable_mem_of_get table _ _ hg2)
+
+theorem loadDocOrd_arr_nil (order : Option (List Nat)) :
+    (match order with | none => (id : List Block → List Block) | some p => fun bs => permuteBlocks bs p) [] = [] := by
+  cases order with
+  | none => rfl
+  | some p => exact permuteBlocks_nil p
+
+/-- `load_of_save_table_with` for `Reader::read` under every schedule of hook H1 -/
+theorem load_of_save_table (order : Option (List Nat)) (d : SDoc) (out : Bytes) (d' : SDoc)
+    (hk : d.xrefKind = .table) (h : saveFrom [] d = some (out, d')) (hlen : out.length < 4294967296)
+    (hmax : d.maxId + 1 ≤ 4294967295) (hwf : DocWF d)
+    (hD : DictReadsBack d'.trailer (STARTXREF_KW ++ natDigits (bodyOf [] d).length ++ EOF_KW))
+    (hobj : ∀ p ∈ d.objects, IndirectReadsBack p.1.1 p.1.2 p.2)
+    (hv1 : ∀ b ∈ d.version, notEol b = true) (hv2 : validUtf8 d.version = true)
+    (hprev : d.trailer.get PREV = none) (henc : d.trailer.has ENCRYPT = false) :
+    ∃ L : Loaded, loadDocOrd order out = .ok L ∧ L.version = d.version ∧ L.binaryMark = d.binaryMark ∧
+      L.trailer = d'.trailer ∧ L.xrefStart = (bodyOf [] d).length ∧ L.maxId ≤ d.maxId ∧
+      ∀ id, L.objects.get id = d.objects.get id :=
+  load_of_save_table_with _ (loadDocOrd_arr_nil order) d out d' hk h hlen hmax hwf hD hobj hv1 hv2 hprev henc
 
 end Lopdf.FileRT
